@@ -79,3 +79,29 @@ func VFDUID(dt interface{}) string                         { return dt.(iface.Da
 func VFNotify(c Client, topic string, n model.Notification) {
 	c.(*clientImpl).datatypeManager.ReceiveNotification(topic, n)
 }
+
+// VFNewSubscribedCounter builds a counter of client `cuid` that is already
+// subscribed to datatype `duid`, with checkpoint (s, c) and next sequence
+// number c+1, then performs the given local increases (which stay pending).
+func VFNewSubscribedCounter(cuid, duid, key string, s, c uint64, pending []int32) Counter {
+	cm := &model.Client{CUID: cuid, SyncType: model.SyncType_MANUALLY}
+	ctx := context.NewClientContext(gocontext.TODO(), cm)
+	base := datatypes.NewBaseDatatype(key, model.TypeOfDatatype_COUNTER, ctx, model.StateOfDatatype_SUBSCRIBED)
+	cnt, err := newCounter(base, nil, nil)
+	if err != nil {
+		panic(err)
+	}
+	ct := cnt.(*counter)
+	ct.SetDUID(duid)
+	ct.SetCheckPoint(s, c)
+	ct.GetOpID().Seq = c
+	if err := ct.ResetTransaction(); err != nil {
+		panic(err)
+	}
+	for _, d := range pending {
+		if _, e := ct.IncreaseBy(d); e != nil {
+			panic(e)
+		}
+	}
+	return ct
+}
